@@ -26,6 +26,10 @@ var pathDocs = []string{
 	`[0,-0,1.5,-2,1e300,"1","abc",true,false,null,[1],{"a":1}]`,
 	`{"n":[1,2,3,4,5,6,7,8,9,10],"s":["a","b","c"],"m":[[1,2],[3,4,5],[],[6]]}`,
 	`7`, `"str"`, `null`, `[]`, `{}`, `[1e400,1]`,
+	// members whose VALUE names a key or index of the same container (script segments reading their key from the container)
+	`[{"k":"a","a":1},{"a":2},{"k":"a","a":3},{"k":null,"a":4},{"k":[1],"a":5},{"k":{"a":1},"a":6},{"k":"zz","a":7},{"k":true,"a":8},{"k":"k"}]`,
+	`{"x":[1,"p","q"],"y":[],"z":[2,"r","s"],"w":[[0],"t"],"v":[null,"u"],"u":[-1,"t","last"],"t":{"0":"k","k":"v"},"s":[7,"q"]}`,
+	`[[1,"a"],{"0":"b","b":[0,"c"]},[[],"d"],[2,"e","f"],[null,"g"],{"0":1,"1":"h"},[0.5,"i"],["1","j"]]`,
 }
 
 // collectNames lists the keys that occur in a reference tree.
@@ -93,6 +97,20 @@ func refsToString(p *probeRun, rs []*Ref) string {
 	parts := make([]string, len(rs))
 	for i, r := range rs {
 		parts[i] = refPath(r)
+	}
+	return strings.Join(parts, " ")
+}
+
+func nodesToString(p *probeRun, ns []*ajson.Node) string {
+	parts := make([]string, len(ns))
+	for i, n := range ns {
+		if n == nil {
+			parts[i] = "nil"
+		} else if r := p.ref[n]; r != nil {
+			parts[i] = refPath(r)
+		} else {
+			parts[i] = "synth:" + n.String()
+		}
 	}
 	return strings.Join(parts, " ")
 }
@@ -345,6 +363,31 @@ func streamPath(o *Out, r *Rng, tier string) {
 				o.Fail("C13", "query-pure", "a query changed the document: "+kind+" "+text, strings.Join(p.hist, "\n"), firstDiff(privBefore, after), "")
 			}
 			emit([]string{"dump"}, p.s.dump())
+			if isPath && !damaged && start != nil && len(sels) >= 3 && !usesLengthName(sels) {
+				histL := strings.Join(p.hist, "\n") + "\n" + kind + " " + startH + " " + text
+				full, fullErr := start.JSONPath(text)
+			// locality of a filter/script segment: over several incoming nodes it selects what it selects on each
+			// of them alone, in order (no temporary survives from one incoming node to the next)
+			if last := sels[len(sels)-1]; len(sels) >= 3 && fullErr == nil && (last.Kind == "filter" || last.Kind == "script") {
+				if pre, perr := start.JSONPath(printSels(sels[:len(sels)-1])); perr == nil && len(pre) > 1 {
+					o.Check("C08", "segment-local")
+					seg := printSels([]Sel{{Kind: "current"}, last})
+					var cat []*ajson.Node
+					bad := false
+					for _, n := range pre {
+						one, oerr := n.JSONPath(seg)
+						if oerr != nil {
+							bad = true
+							break
+						}
+						cat = append(cat, one...)
+					}
+					if !bad && !sameNodes(full, cat) {
+						o.Fail("C08", "segment-local", "a filter/script segment over several incoming nodes differs from the concatenation of its results on each node alone ("+seg+")", histL, nodesToString(p, cat), nodesToString(p, full))
+					}
+				}
+			}
+			}
 			if damaged || startRef == nil || refErrV == errUnspecified {
 				continue
 			}
@@ -438,6 +481,88 @@ func streamPath(o *Out, r *Rng, tier string) {
 	}
 	// exhaustive operator pairs (quick) and triples (thorough): a op1 b op2 c [op3 d]
 	streamOperatorChains(o, tier)
+	streamSliceSweep(o, tier)
+}
+
+// streamSliceSweep: every slice [s:e:st] with bounds around the array sizes, applied to arrays of ALL sizes 0..N at once
+// ($[*][s:e:st] over an array of arrays): the result must be the Python/ES4 slice of each incoming array, concatenated.
+func streamSliceSweep(o *Out, tier string) {
+	N := 5
+	if tier == "thorough" {
+		N = 8
+	}
+	var doc strings.Builder
+	doc.WriteString("[")
+	for n := 0; n <= N; n++ {
+		if n > 0 {
+			doc.WriteString(",")
+		}
+		doc.WriteString("[")
+		for j := 0; j < n; j++ {
+			if j > 0 {
+				doc.WriteString(",")
+			}
+			doc.WriteString(strconv.Itoa(j))
+		}
+		doc.WriteString("]")
+	}
+	doc.WriteString("]")
+	s := &Session{}
+	o.Emit(reqLine([]string{"reset"}), s.Exec([]string{"reset"}), "")
+	pf := []string{"parse", hexOrDash([]byte(doc.String()))}
+	o.Emit(reqLine(pf), s.Exec(pf), "")
+	root := s.handles[0]
+	var bounds []*int
+	bounds = append(bounds, nil)
+	for v := -N - 2; v <= N+2; v++ {
+		bounds = append(bounds, ip(v))
+	}
+	steps := []*int{nil, ip(-3), ip(-2), ip(-1), ip(1), ip(2), ip(3)}
+	str := func(v *int) string {
+		if v == nil {
+			return ""
+		}
+		return strconv.Itoa(*v)
+	}
+	for _, st := range steps {
+		for _, b := range bounds {
+			for _, e := range bounds {
+				text := "$[*][" + str(b) + ":" + str(e)
+				if st != nil {
+					text += ":" + str(st)
+				}
+				text += "]"
+				f := []string{"jsonpath", "0", hexOrDash([]byte(text))}
+				obs := s.execQuery(f)
+				o.Emit(reqLine(f), obs, "slice"+text)
+				o.Check("C07", "slice-sweep")
+				res, err := root.JSONPath(text)
+				if err != nil {
+					o.Fail("C07", "slice-sweep", "a slice with literal bounds fails", doc.String()+"\n"+text, "ok", fmt.Sprint(err))
+					continue
+				}
+				var want []*ajson.Node
+				var wantS []string
+				for n := 0; n <= N; n++ {
+					for _, j := range pySlice(n, b, e, st) {
+						want = append(want, root.MustIndex(n).MustIndex(j))
+						wantS = append(wantS, fmt.Sprintf("$[%d][%d]", n, j))
+					}
+				}
+				if !sameNodes(res, want) {
+					gotS := make([]string, len(res))
+					for i, x := range res {
+						if x == nil {
+							gotS[i] = "nil"
+						} else {
+							gotS[i] = x.Path()
+						}
+					}
+					o.Fail("C07", "slice-sweep", "slice result differs from the Python/ES4 slice of each incoming array", doc.String()+"\n"+text, strings.Join(wantS, " "), strings.Join(gotS, " "))
+				}
+			}
+		}
+	}
 }
 
 func countBin(e *Expr) int {
